@@ -19,6 +19,22 @@ CHECKS = {
         ref="4/C12"),
 }
 
+CHECKS.update({
+    "C03": dict(
+        technique="static analysis: computed erasable-ADT set (type-graph reachability) + who-may-read rule over every MIR place projection + match-arm emptiness",
+        text="Decides the back-end clause of erasure exactly: outside the parser/AST no function of the crate reads a type-syntax "
+             "node or a type slot (whole-slot transport excepted), and arms selecting type-only statements do no work, so emitted "
+             "bytecode is a function of the AST minus annotations. Zero reads on the current tree, with a positive control. "
+             "It does not decide that the parser produces the same non-type AST with and without annotations.",
+        ref="4/C03"),
+    "C15": dict(
+        technique="static analysis: match-arm regions of the opcode interpreter + who-may-cast rule + def-chain (greatest fixed point) inside conversion helpers",
+        text="Decides only the clause 'conversions to 32-bit integers wrap': no saturating float->int cast in any bitwise/shift "
+             "operator arm, and every ToInt32/ToUint32 helper reduces modulo (f64 %) before casting. The defect it found on the "
+             "pinned tree was repaired (fix: commit). Printing/parsing/formatting of numbers are run-time values and not decided.",
+        ref="4/C15"),
+})
+
 NOT_APPLICABLE = {
     "C04": "value equivalence with the TypeScript emit; no structural mechanism exists (DESIGN.md 4/C04)",
     "C09": "behaviour of a fixed-point loader over all graphs x schedules; structural parts are decided under C02/C19",
